@@ -350,6 +350,55 @@ static std::string handle(const std::string& cmd, const std::string& args) {
     if (!r.empty()) return "padding: " + r + " text=" + hx(t1);
     return "ok";
   }
+  if (cmd == "o_linkr") {      // seed: a LINKR record (Refmac link id) to a copy of the partner in a NEIGHBOURING cell
+    ps::Rng r((uint64_t)to_ll(w.at(0)));
+    Structure st;
+    st.cell.set(10, 12, 14, 90, 90, 90);
+    st.spacegroup_hm = r.chance(50) ? "P 1" : "P 1 21 1";
+    st.models.emplace_back(1);
+    st.models[0].chains.emplace_back("A");
+    int axis = r.below(3);
+    bool flip = r.chance(50);
+    for (int i = 0; i < 2; ++i) {
+      Residue res;
+      res.name = i == 0 ? "LIG" : "ALA";
+      res.seqid = SeqId(i + 1, ' ');
+      res.het_flag = 'H';
+      Atom a;
+      a.name = i == 0 ? "C1" : "N1";
+      a.element = Element(i == 0 ? "C" : "N");
+      Fractional f(0.31, 0.42, 0.37);
+      double lo = 0.04 + 0.01 * r.below(3), hi = 1 - lo;
+      (axis == 0 ? f.x : axis == 1 ? f.y : f.z) = ((i == 0) != flip) ? lo : hi;
+      a.pos = st.cell.orthogonalize(f);
+      a.occ = 1; a.b_iso = 20; a.serial = i + 1;
+      res.atoms.push_back(a);
+      st.models[0].chains[0].residues.push_back(res);
+    }
+    st.setup_cell_images();
+    Connection c;
+    c.name = "covale1";
+    c.type = Connection::Covale;
+    c.partner1 = AtomAddress("A", SeqId(1, ' '), "LIG", "C1");
+    c.partner2 = AtomAddress("A", SeqId(2, ' '), "ALA", "N1");
+    c.link_id = r.chance(80) ? "X1-LNK" : "";
+    int which = r.below(3);
+    c.asu = which == 0 ? Asu::Different : which == 1 ? Asu::Any : Asu::Same;
+    st.connections.push_back(c);
+    PdbWriteOptions wo;
+    wo.use_linkr = true;
+    std::string t1 = make_pdb_string(st, wo);
+    Structure st2 = rd(t1, PdbReadOptions());
+    if (st2.connections.size() != 1) return "connection lost text=" + hx(t1);
+    Asu want = which == 2 ? Asu::Same : Asu::Different;    // the nearest copy (about 1 A away) is in the next cell
+    if (st2.connections[0].asu != want)
+      return "asu of the link read back as " + std::to_string((int)st2.connections[0].asu) + " expected " +
+             std::to_string((int)want) + " text=" + hx(t1);
+    if (st2.connections[0].link_id != c.link_id) return "link id changed text=" + hx(t1);
+    std::string t2 = make_pdb_string(st2, wo);
+    if (!same_text_mod_link_distance(t1, t2)) return "second write differs: " + ps::first_diff(t1, t2) + " text=" + hx(t1);
+    return "ok";
+  }
   if (cmd == "o_pad") {        // hex(text) rmask: padding / line-end independence on a given text
     std::string text = hex_decode(w.at(0));
     std::string r = padding_oracle(text, ropt_from_mask((unsigned)to_ll(w.at(1))), true);
